@@ -605,6 +605,51 @@ def rule_derive_options(ctx):
             obs.append(bad('ATTR-PLUMB', inst, 'value is transformed on the way to the option: %s' % sorted(xfs), n.get('sp', ''), 'option value differs from what was written'))
         else:
             obs.append(ok('ATTR-PLUMB', inst, '%s <- %s(%s)' % (setter, extractor, key or 'wrapper'), n.get('sp', '')))
+        # .. whenever its own key was extracted, whatever the other keys gave: a setter in an arm of a match over several
+        # extraction results must be the first-matching arm for every combination in which its own result is Ok
+        for par_, role_, _c in nf.ancestors(n):
+            if par_.get('k') == 'match' and isinstance(role_, tuple) and role_[0] == 'arms' and par_['scrut'].get('k') == 'tup' and len(par_['scrut']['es']) >= 2:
+                comps = par_['scrut']['es']
+                own = None
+                # the component whose extractor is the one feeding this setter
+                for i_, ce in enumerate(comps):
+                    names_ = {short(lf_.path).split('::')[-1] for x_ in walk(ce) if x_.get('k') in ('call', 'mcall') for lf_ in ctx.pv.local_fns(x_.get('callee')) or []}
+                    if extractor in names_ or (key is not None and any(x_.get('k') == 'lit' and x_['lit'].get('v') == key for x_ in walk(ce))):
+                        own = i_
+                if own is None:
+                    break
+
+                def pat_ok(p_, v_):
+                    """does pattern p_ match the outcome v_ ('Ok' / 'Err')?"""
+                    if p_[0] in ('wild', 'bind'):
+                        return True
+                    if p_[0] == 'ctor':
+                        nm = p_[1].split('::')[-1]
+                        return nm == v_ or (nm == 'Some' and v_ == 'Ok') or (nm == 'None' and v_ == 'Err')
+                    if p_[0] == 'or':
+                        return any(pat_ok(x_, v_) for x_ in p_[1])
+                    return True
+                import itertools
+                arms_ = [(P.pat_summary(a_['pat']), a_) for a_ in par_['arms']]
+                shadowed = None
+                for combo in itertools.product(('Ok', 'Err'), repeat=len(comps)):
+                    if combo[own] != 'Ok':
+                        continue
+                    first = None
+                    for ps_, a_ in arms_:
+                        if ps_[0] == 'tuple' and len(ps_[1]) == len(comps) and all(pat_ok(ps_[1][j_], combo[j_]) for j_ in range(len(comps))):
+                            first = a_
+                            break
+                        if ps_[0] in ('wild', 'bind'):
+                            first = a_
+                            break
+                    if first is not None and not any(x_ is n for x_ in walk(first['body'])):
+                        shadowed = combo
+                        break
+                if shadowed is not None:
+                    obs.append(bad('ATTR-PLUMB', inst + '/independent', '%s is skipped when the other attributes are %s: an earlier arm of the joint match takes that case' % (setter, list(shadowed)), n.get('sp', ''),
+                                   'an option written in #[graphql(..)] is ignored depending on which other options are written'))
+                break
         # optional setters only when extraction succeeded
         pcs = P.path_conds(nf, n)
         if setter in ('set_variables_derives', 'set_response_derives', 'set_custom_scalars_module', 'set_extern_enums', 'set_deprecation_strategy', 'set_normalization'):
@@ -692,7 +737,24 @@ def rule_derive_options(ctx):
         nf_, nenv_ = env_of(calls[0])
         t2 = ctx.pv.eval(nf_, calls[0]['args'][0], {}, 0)
         keys2 = {c_ for c_ in TM.consts_in(t2) if c_ in ('query_path', 'schema_path')}
-        if (t[0] == 'param' and t[3] == 'query_path') or keys2 == {'query_path'}:
+        # when the value is the builder's own parameter: what do the callers hand in for it?  (the pair returned by the
+        # path builder is (query, schema): the first component, and only it, may arrive here)
+        crossed = None
+        if t[0] == 'param' and keys2 != {'query_path'}:
+            pidx = t[2]
+            for cfn_, cnode_ in ctx.pv.call_sites(nf_):
+                cargs_ = ([cnode_['recv']] if cnode_['k'] == 'mcall' else []) + cnode_['args']
+                if pidx < len(cargs_):
+                    ct_ = ctx.pv.eval(cfn_, cargs_[pidx], {}, 0)
+                    ckeys_ = {c_ for c_ in TM.consts_in(ct_) if c_ in ('query_path', 'schema_path')}
+                    names_ = {cfn_.bind_names.get(x_['res']['hid'], '') for x_ in walk(cargs_[pidx]) if x_['k'] == 'path' and (x_.get('res') or {}).get('r') == 'local'}
+                    tix_ = {s_[2] for s_ in P.subterms(ct_) if isinstance(s_, tuple) and s_ and s_[0] == 'tproj'}
+                    if ckeys_ == {'schema_path'} or (not ckeys_ and (tix_ == {1} or (names_ and all('schema' in n_ for n_ in names_)))):
+                        crossed = (cfn_, cnode_)
+        if crossed is not None:
+            obs.append(bad('ATTR-PATHS', 'derive/set_query_file', 'the caller hands the *schema* path to the parameter that becomes the query file', crossed[1].get('sp', ''),
+                           'include_str! tracks the schema file: editing the query does not rebuild, QUERY is stale'))
+        elif (t[0] == 'param' and t[3] == 'query_path') or keys2 == {'query_path'}:
             obs.append(ok('ATTR-PATHS', 'derive/set_query_file', 'include_str! path = the query path the generator reads', calls[0].get('sp', '')))
         else:
             obs.append(bad('ATTR-PATHS', 'derive/set_query_file', 'query_file <- %s' % P.show(t, 0, 3), calls[0].get('sp', ''), 'cargo tracks another file'))
